@@ -44,6 +44,9 @@ def check(run):
     run.guard("C20.6.escaping", cfg, lambda: rule_escape(run, F, cfg))
     run.guard("C20.6.escaping", cfg + "/sinks", lambda: rule_escape_sinks(run, F, cfg))
     run.guard("C20.7.url-filter-nonempty", cfg, lambda: rule_nonempty(run, F, cfg))
+    from . import C12 as _C12
+    b12 = run.borrow("C12", why="an emitted `$`-terminated url-filter covers what the engine matches only if the engine sees the whole URL")
+    run.guard("C20.via.C12.7.whole-url", cfg, lambda: _C12.rule_whole_url(b12, F, cfg))
 
 
 def rule_writers(run, F, cfg):
